@@ -163,3 +163,49 @@ def generic_nesting_case(rng):
 
 import itertools as _it
 _counter = _it.count()
+
+
+class Port:
+    """A type hooked in through the `_converter` protocol with a stock UnionConverter whose `constructor=` validates."""
+    def __init__(self, v):
+        n = int(v)
+        if not 0 <= n <= 65535:
+            raise ValueError(f"not a port: {v!r}")
+        self.n = n
+
+    def __eq__(self, o): return type(o) is Port and o.n == self.n
+    def __hash__(self): return hash(('port', self.n))
+    def __repr__(self): return f"Port({self.n})"
+
+    @classmethod
+    def _converter(cls, *args, handlers):
+        return env.m_converters.UnionConverter((int, str), handlers=handlers, constructor=lambda v, i: cls(v))
+
+
+class Version:
+    """`_converter` protocol with a stock DelegateConverter-like struct: an UNHASHABLE typed image (for mapping keys)."""
+    def __init__(self, parts): self.parts = list(parts)
+    def __eq__(self, o): return type(o) is Version and o.parts == self.parts
+    __hash__ = None
+    def __repr__(self): return f"Version({self.parts})"
+
+    @classmethod
+    def _converter(cls, *args, handlers):
+        return env.m_converters.UnionConverter((t.List[int],), handlers=handlers, constructor=lambda v, i: cls(v))
+
+
+def protocol_cases():
+    out = []
+    for d, T, vals in (('Port', Port, [80, '443', 70000, 'http', -1, None, 2.5, [80]]),
+                       ('Version', Version, [[1, 2], [], ['x'], 'v1', None])):
+        out.append((d, T, vals))
+        out.append((f"List[{d}]", t.List[T], [[v] for v in vals] + [[vals[0], vals[2]]]))
+        out.append((f"Optional[{d}]", t.Optional[T], vals))
+        out.append((f"Union[{d}, bool]", t.Union[T, bool], vals + [True]))
+        cls = type('Has' + d, (env.PaneBase,), {'__annotations__': {'f': T, 'n': int}, 'n': 0, '__module__': __name__})
+        out.append((f"class with field {d}", cls, [{'f': v} for v in vals]))
+    # typed images that cannot be hashed, as mapping keys and set elements
+    out.append(('Dict[Version, int]', t.Dict[Version, int], [{(1, 2): 1}, {}, {'x': 1}]))
+    out.append(('Set[Version]', t.Set[Version], [[[1, 2]], []]))
+    out.append(('Dict[List[int], int]', t.Dict[t.List[int], int], [{(1, 2): 1}, {}]))
+    return out
